@@ -39,7 +39,8 @@ type OutageOp struct {
 
 type PopFile struct {
 	Name   string `json:"name"`
-	AgeH   int    `json:"age_h"` // mtime = start - AgeH hours (negative margin handled by generator)
+	AgeH   int    `json:"age_h"` // mtime = start - AgeH hours - AgeMin minutes
+	AgeMin int    `json:"age_min,omitempty"`
 	Dir    bool   `json:"dir,omitempty"`
 	Size   int    `json:"size"`
 }
@@ -57,6 +58,7 @@ type RollScn struct {
 	Separate bool       `json:"separate,omitempty"` // C14: sibling appender name.wf in the same directory
 	FaultDir []string   `json:"dir_faults,omitempty"` // C14: readdir | info | remove failures
 	Static   string     `json:"static,omitempty"`     // C19b: file-closed | file-unstarted | console-fails
+	ViaLogger bool      `json:"via_logger,omitempty"` // C14: the sibling pair is built by a RollingFileLogger (separate=true)
 	Script   []string   `json:"script,omitempty"`     // C19 grid: sequential script of w | clk | out:<kind> | restore
 }
 
@@ -677,18 +679,16 @@ var popForeign = []string{"app.log.wf.%s", "app.log.audit.%s", "app.log.bak", "a
 
 func (c14) Gen(rt *rapid.T, thorough bool) any {
 	s := genRollBase(rt, thorough, 3)
-	s.Interval = rapid.SampledFrom([]string{"1s", "2s"}).Draw(rt, "interval14")
-	if len(s.Clock) > 4 {
-		s.Clock = s.Clock[:4]
-	}
-	for i, k := range s.Clock {
-		if k == ckPlus3Intervals {
-			s.Clock[i] = ckPlusInterval
-		}
+	// short intervals for dense rotation/cleanup interleavings, long ones so that whole hours
+	// pass while the logger is idle: files then cross the cut-off during the run
+	s.Interval = rapid.SampledFrom([]string{"1s", "2s", "2s", "10m", "h", "h"}).Draw(rt, "interval14")
+	if len(s.Clock) > 5 {
+		s.Clock = s.Clock[:5]
 	}
 	s.Clock = append([]int{ckAfterBoundary}, s.Clock...)
-	s.MaxAge = rapid.SampledFrom([]int{1, 2, 24, 168, 720}).Draw(rt, "max_age")
+	s.MaxAge = rapid.SampledFrom([]int{1, 2, 3, 24, 168, 720}).Draw(rt, "max_age")
 	s.Separate = rapid.IntRange(0, 3).Draw(rt, "separate") == 0
+	s.ViaLogger = s.Separate && rapid.Bool().Draw(rt, "via_logger")
 	n := rapid.IntRange(2, 10).Draw(rt, "npop")
 	seen := map[string]bool{}
 	for i := 0; i < n; i++ {
@@ -710,10 +710,12 @@ func (c14) Gen(rt *rapid.T, thorough bool) any {
 		}
 		seen[name] = true
 		pf := PopFile{Name: name, Size: rapid.IntRange(0, 50).Draw(rt, "psize")}
-		if rapid.Bool().Draw(rt, "expired") {
-			pf.AgeH = s.MaxAge + rapid.SampledFrom([]int{1, 2, 100, 10000}).Draw(rt, "over")
-		} else {
-			pf.AgeH = rapid.IntRange(0, s.MaxAge-1).Draw(rt, "under")
+		// ages spread around the cut-off, from fresh to long expired; the oracle computes what
+		// must go from the simulated clock at the time of the cleanup
+		pf.AgeH = rapid.SampledFrom([]int{0, 0, s.MaxAge - 1, s.MaxAge - 1, s.MaxAge, s.MaxAge + 1, s.MaxAge + 1, s.MaxAge + 2, s.MaxAge + 100, s.MaxAge + 10000}).Draw(rt, "age_h")
+		pf.AgeMin = rapid.SampledFrom([]int{0, 1, 30, 59}).Draw(rt, "age_min")
+		if pf.AgeH < 0 {
+			pf.AgeH = 0
 		}
 		pf.Dir = rapid.IntRange(0, 9).Draw(rt, "isdir") == 0
 		s.Pop = append(s.Pop, pf)
@@ -732,34 +734,78 @@ func (c14) Run(x *Exec, scn any) {
 	o := x.Out
 	x.FS.MkdirAll(rollDir)
 	start := verifsim.Now()
+	mtimeOf := func(pf PopFile) time.Time {
+		return start.Add(-time.Duration(pf.AgeH)*time.Hour - time.Duration(pf.AgeMin)*time.Minute)
+	}
 	for _, pf := range s.Pop {
 		p := rollDir + "/" + pf.Name
 		if pf.Dir {
 			x.FS.MkdirAll(p)
 		} else {
-			x.FS.PutFile(p, []byte(strings.Repeat("x", pf.Size)), start.Add(-time.Duration(pf.AgeH)*time.Hour))
+			x.FS.PutFile(p, []byte(strings.Repeat("x", pf.Size)), mtimeOf(pf))
 		}
-		x.FS.SetMtime(p, start.Add(-time.Duration(pf.AgeH)*time.Hour))
+		x.FS.SetMtime(p, mtimeOf(pf))
 	}
 	for _, k := range s.FaultDir {
 		errno := map[string]syscall.Errno{"readdir": syscall.EIO, "info": syscall.ENOENT, "remove": syscall.EACCES}[k]
 		x.FS.AddFault(&simos.FaultRule{Op: k, Prefix: rollDir, Err: errno, Skip: 0, Count: 1 + len(s.Pop)/2})
 	}
-	a := newRolling(s, rollName)
-	if err := a.Start(); err != nil {
-		panic("harness: " + err.Error())
-	}
-	var wf *log.RollingFileAppender
-	if s.Separate {
-		wf = newRolling(s, rollName+".wf")
-		if err := wf.Start(); err != nil {
+	iv := intervals[s.Interval]
+	var a, wf *log.RollingFileAppender
+	var viaLogger *log.RollingFileLogger
+	write := func(payload string) { a.Write([]byte(payload)) }
+	var stop func()
+	if s.ViaLogger {
+		// the sibling pair as the rolling-file logger itself builds it; only INFO events are logged,
+		// so the .wf appender stays idle: neither its old files nor its current file may be touched
+		viaLogger = &log.RollingFileLogger{LoggerBase: log.LoggerBase{Name: "rl", Level: log.LevelRange{MinLevel: log.NoneLevel, MaxLevel: log.MaxLevel}},
+			FileDir: rollDir, FileName: rollName, Separate: true, Rotation: log.TimeRotation{Interval: iv}, MaxAge: int32(s.MaxAge)}
+		var err error
+		if !x.do("start", func() { err = viaLogger.Start() }) || err != nil {
+			panic(fmt.Sprintf("harness: rolling logger start: %v", err))
+		}
+		n := 0
+		write = func(payload string) {
+			n++
+			e := log.GetEvent()
+			e.Level, e.Time, e.Tag = log.InfoLevel, verifsim.Now(), "_app_def"
+			e.Fields = []log.Field{log.String("id", fmt.Sprintf("t7s%d", n)), log.String("p", strings.TrimSpace(payload))}
+			viaLogger.Append(e)
+		}
+		stop = viaLogger.Stop
+	} else {
+		a = newRolling(s, rollName)
+		if err := a.Start(); err != nil {
 			panic("harness: " + err.Error())
+		}
+		if s.Separate {
+			wf = newRolling(s, rollName+".wf")
+			if err := wf.Start(); err != nil {
+				panic("harness: " + err.Error())
+			}
+		}
+		stop = func() {
+			a.Stop()
+			if wf != nil {
+				wf.Stop()
+			}
 		}
 	}
 	boundaries := 0
 	clockEnv(x, s, &boundaries)
 	var writes []*rollWrite
-	spawnWriters(x, s, a, &writes)
+	for w := range s.Writers {
+		x.Sim.Spawn(fmt.Sprintf("writer%d", w), func() {
+			for i, size := range s.Writers[w] {
+				rw := &rollWrite{ID: fmt.Sprintf("w%d-%d", w, i), Payload: rollPayload(w, i, size%3000), Start: verifsim.Now()}
+				writes = append(writes, rw)
+				pv, _ := call(func() { write(rw.Payload) })
+				rw.End = verifsim.Now()
+				rw.Panic, rw.Returned = pv, pv == nil
+				verifsim.Yield("writer.between")
+			}
+		})
+	}
 	if wf != nil {
 		x.Sim.Spawn("wf-writer", func() {
 			for i := 0; i < 3; i++ {
@@ -772,22 +818,18 @@ func (c14) Run(x *Exec, scn any) {
 	if len(x.clientsStuck()) > 0 || res.StepCap {
 		o.violate("blocked", "C14/blocked", "run did not finish: %+v", res)
 	}
-	// make sure at least one rotation (hence one cleanup) happens after all clock decisions
-	x.Sim.Advance(intervals[s.Interval])
+	// one more rotation after all clock decisions: its cleanup is the one that settles the directory
+	x.Sim.Advance(iv)
+	tLastRot := verifsim.Now()
 	x.Sim.Spawn("last-writer", func() {
-		call(func() { a.Write([]byte("<last>\n")) })
+		call(func() { write("<last>\n") })
 		if wf != nil {
 			call(func() { wf.Write([]byte("<wf-last>\n")) })
 		}
 	})
 	x.Sim.Run(nil)
-	end := verifsim.Now()
-	x.Sim.Spawn("stopper", func() {
-		a.Stop()
-		if wf != nil {
-			wf.Stop()
-		}
-	})
+	tEnd := verifsim.Now()
+	x.Sim.Spawn("stopper", stop)
 	x.Sim.Run(nil)
 	for _, t := range x.Sim.Died() {
 		if t.Daemon {
@@ -797,27 +839,28 @@ func (c14) Run(x *Exec, scn any) {
 		}
 	}
 	x.Sim.Close()
-	if end.Sub(start) > 55*time.Minute {
-		panic("harness: C14 clock moved too far for the one-hour margin")
-	}
+	maxAge := time.Duration(s.MaxAge) * time.Hour
 	survivors := map[string]bool{}
 	for _, e := range x.FS.List(rollDir) {
 		survivors[e.Name] = true
 	}
 	expiredOwn, other := 0, 0
 	for _, pf := range s.Pop {
-		own := !pf.Dir && (ownRe.MatchString(pf.Name) || (s.Separate && ownWfRe.MatchString(pf.Name)))
-		expired := pf.AgeH > s.MaxAge
-		mustGo := own && expired
+		// the .wf files belong to the sibling appender; it only cleans up when it rotates itself
+		// (never in the logger-built variant, where it stays idle)
+		own := !pf.Dir && (ownRe.MatchString(pf.Name) || (s.Separate && !s.ViaLogger && ownWfRe.MatchString(pf.Name)))
+		mt := mtimeOf(pf)
+		mustGo := own && mt.Before(tLastRot.Add(-maxAge))          // older than the cut-off of the last cleanup, whenever it ran
+		mustStay := !own || !mt.Before(tEnd.Add(-maxAge))           // not an own file, or still young when the run ended
 		if mustGo {
 			expiredOwn++
-		} else if expired || own {
+		} else if own || mt.Before(tLastRot.Add(-maxAge)) {
 			other++
 		}
 		switch {
 		case mustGo && survivors[pf.Name] && len(s.FaultDir) == 0:
-			o.violate("expired-own-file-kept", "C14/expired-own-file-kept", "own file %s (age %dh > maxAge %dh) survived a fault-free cleanup", pf.Name, pf.AgeH, s.MaxAge)
-		case !mustGo && !survivors[pf.Name]:
+			o.violate("expired-own-file-kept", "C14/expired-own-file-kept", "own file %s (mtime %s, %s before the last rotation at %s; maxAge %dh) survived a fault-free cleanup", pf.Name, mt.Format(time.RFC3339), tLastRot.Sub(mt), tLastRot.Format(time.RFC3339), s.MaxAge)
+		case mustStay && !survivors[pf.Name]:
 			class := "foreign"
 			switch {
 			case pf.Dir:
@@ -825,20 +868,43 @@ func (c14) Run(x *Exec, scn any) {
 			case own:
 				class = "own-but-fresh"
 			}
-			o.violate("wrong-file-deleted", "C14/wrong-file-deleted/"+class, "cleanup of appender %q (maxAge %dh) removed %s (age %dh, dir=%v): not one of its own expired files", rollName, s.MaxAge, pf.Name, pf.AgeH, pf.Dir)
+			o.violate("wrong-file-deleted", "C14/wrong-file-deleted/"+class, "cleanup of appender %q (maxAge %dh) removed %s (mtime %s, run ended %s, dir=%v): not one of its own expired files", rollName, s.MaxAge, pf.Name, mt.Format(time.RFC3339), tEnd.Format(time.RFC3339), pf.Dir)
 		}
 	}
-	// files written during the run are fresh and must all be there
-	files := x.FS.AllFiles()
-	for _, w := range writes {
-		if w.Returned {
-			if _, n := locate(files, w.Payload); n != 1 {
-				o.violate("current-file-deleted", "C14/written-data-missing", "write %s found %d times after cleanup", w.ID, n)
+	// what was written during the run is younger than maxAge as long as the run itself was shorter
+	if tEnd.Sub(start) < maxAge-time.Minute && !s.ViaLogger {
+		files := x.FS.AllFiles()
+		for _, w := range writes {
+			if w.Returned {
+				if _, n := locate(files, w.Payload); n != 1 {
+					o.violate("current-file-deleted", "C14/written-data-missing", "write %s found %d times after cleanup", w.ID, n)
+				}
 			}
+		}
+	}
+	if s.ViaLogger {
+		// the idle sibling's current file must still be there
+		found := false
+		for name := range survivors {
+			if ownWfRe.MatchString(name) && !popHas(s.Pop, name) {
+				found = true
+			}
+		}
+		if !found && tEnd.Sub(start) < maxAge-time.Minute {
+			o.violate("wrong-file-deleted", "C14/wrong-file-deleted/sibling-current-file", "the .wf appender's current file is gone although it is younger than maxAge and only the normal appender rotated")
 		}
 	}
 	o.Reached = x.Sim.Probes["boundary_crossed"] > 0 && expiredOwn > 0 && other > 0
 	o.ScnDistinct = true
+}
+
+func popHas(pop []PopFile, name string) bool {
+	for _, p := range pop {
+		if p.Name == name {
+			return true
+		}
+	}
+	return false
 }
 
 // Grid enumerates every placement of one outage (4 kinds) in a fixed
